@@ -84,8 +84,10 @@ End AllValid.
 
 (* ---- the accuracy clause with the executable library models; the only hypothesis is that
         floor(log10 a) is the decimal exponent of a or one more (log10_sane in Properties/C20.v) ---- *)
-Theorem display_accurate_exec : forall log10,
-  (forall a k, valid_binary prec emax a = true -> in_decade a k ->
+(* log10 is only ever applied to absolute values, so its sanity is needed on POSITIVE doubles only (the real
+   f64::log10 returns NaN on negative arguments) *)
+Theorem display_accurate_exec_pos : forall log10,
+  (forall a k, valid_binary prec emax a = true -> nsign a = false -> in_decade a k ->
                (k <= as_i32 (nfloor (log10 a)) <= k + 1)%Z) ->
   forall x t, valid_binary prec emax x = true -> Num.is_finite x = true -> neqb x nzero = false ->
     format_display_number log10 powi_exec fmt_prec_exec fmt_exp14_exec parse_f64_exec true x = Ok t ->
@@ -95,11 +97,20 @@ Proof.
   apply Rlt_Qlt. rewrite Q2R_Qabs, Q2R_minus, Q2R_num, Q2R_p10.
   apply (display_accurate_valid log10 powi_exec fmt_prec_exec fmt_exp14_exec parse_f64_exec
            fmt_exp14_exec_correct parse_f64_exec_close); try assumption.
-  - intros a K Va Fa HA. apply (HL a K Va). apply in_decade_of_R.
-    rewrite Rabs_pos_eq; [exact HA|]. pose proof (p10_pos K). lra.
+  - intros a K Va Fa HA. pose proof (p10_pos K) as PK. apply (HL a K Va).
+    + apply RV_pos_nsign. lra.
+    + apply in_decade_of_R. rewrite Rabs_pos_eq; [exact HA|lra].
   - exact powi_exec_exact.
   - exact powi_exec_neg.
   - exact fmt_prec_exec_shape.
   - intros m dp Fm Hd. apply fmt_prec_exec_accurate; [exact Fm|lia].
   - now apply in_decade_R.
 Qed.
+
+Theorem display_accurate_exec : forall log10,
+  (forall a k, valid_binary prec emax a = true -> in_decade a k ->
+               (k <= as_i32 (nfloor (log10 a)) <= k + 1)%Z) ->
+  forall x t, valid_binary prec emax x = true -> Num.is_finite x = true -> neqb x nzero = false ->
+    format_display_number log10 powi_exec fmt_prec_exec fmt_exp14_exec parse_f64_exec true x = Ok t ->
+    forall k, in_decade x k -> (Qabs (denote t - num_to_Q x) < Qpower (10 # 1) (k - 14)%Z)%Q.
+Proof. intros log10 HL. apply display_accurate_exec_pos. intros a k V _ D. exact (HL a k V D). Qed.
